@@ -104,6 +104,10 @@ class Prop(common.PropertyCheck):
         for i in range(self.budget(24, 240)):
             yield {'cont': 'sample', 'D': rng.randrange(4, 8), 'N': rng.choice([1, 7]), 'form': ['none', 'list', 'scalar'][i % 3], 'seed': rng.randrange(1 << 30),
                    'at': ['none', 'partial'][i % 2], 'ag': 'none', 'res': 'none', 'bad': None, 'dt': ['I', 'F'][(i // 2) % 2], 'presl': ['even', 'odd', 'third'][i % 3]}
+        # channel names that differ in letter case only, selected by name
+        for i in range(self.budget(18, 150)):
+            yield {'cont': 'sample', 'D': rng.randrange(3, 6), 'N': rng.choice([1, 7]), 'form': ['list', 'scalar', 'none'][i % 3], 'seed': rng.randrange(1 << 30),
+                   'at': 'none', 'ag': 'none', 'res': 'none', 'bad': None, 'dt': 'I', 'case_twins': True}
         # conversions in two steps with a channel selection in between
         for i in range(self.budget(18, 150)):
             yield {'cont': 'sample', 'D': rng.randrange(3, 7), 'N': rng.choice([1, 7]), 'form': ['none', 'list'][i % 2], 'seed': rng.randrange(1 << 30),
@@ -142,6 +146,10 @@ class Prop(common.PropertyCheck):
         if case['cont'] == 'sample':
             spec = samples.spec_rich(r, N=N, D=D, datatype=case.get('dt', 'I'), res=[256, 256, 1000][:D] if case.get('many') else None,
                                      log_channels=[0, 1, 2] if case.get('many') else None, time_channel=bool(case.get('timech')))
+            if case.get('case_twins') and D >= 3:
+                # two channels whose names differ in letter case only (different names): each is addressed by its own name
+                spec['names'] = list(spec['names'])
+                spec['names'][0] = spec['names'][2].lower()
             if case.get('timech'):
                 # the clock channel is recorded with a setting of its own, like any other channel
                 spec['extra'] = [kv for kv in spec['extra'] if kv[0] != '$P%dG' % D]
@@ -416,6 +424,9 @@ class Prop(common.PropertyCheck):
                     if pw > Decimal('1.797693134e308') and y == float('inf') and law[2] > 0:
                         continue
                     if pw < Decimal('5e-324') and y == 0.0:
+                        continue
+                    # a1 = 0 given by the caller and the power beyond the double range: 0 * inf is nan in the factor-by-factor evaluation, 0 exactly
+                    if pw > Decimal('1.797693134e308') and law[2] == 0 and (y != y or y == 0.0):
                         continue
                 # the float exponent a0/r*x carries ~2 roundings, amplified by ln(10)*|exponent| in the result
                 expo = abs(law[1] / law[3] * x) if law[0] == 'log' else 0.0
